@@ -64,6 +64,9 @@ class PipelineBase(Obligation):
         eng.stub(r'^(glob::)?glob$',self.s_glob,'glob::glob [ghost link directory]')
         eng.stub(r'^load_linkfile$',self.s_load_linkfile,'verifylib::load_linkfile [ghost link directory]')
         eng.stub(r'^(chrono::)?Utc::now$',self.s_now,'chrono::Utc::now [symbolic instant]')
+        def s_systime_now(e,run,a,f):
+            d=deref(self.s_now(e,run,a,f)); return Agg('SystemTime',[d.f[0],d.f[1]])
+        eng.stub(r'^(std::time::)?SystemTime::now$',s_systime_now,'std::time::SystemTime::now [the same symbolic clock]')
         eng.stub(r'(^|::)in_toto_run$',self.s_in_toto_run,'runlib::in_toto_run [ghost inspection run]')
         eng.stub(r'^std::fs::write$',self.s_fs_write,'std::fs::write [ghost event log]')
         eng.stub(r'^(serde_json::)?to_string_pretty$',lambda e,run,a,f: ok(mk_string('<json>',True)),'serde_json::to_string_pretty [opaque text]')
